@@ -12,7 +12,15 @@ model the simulated disk assumes (DESIGN.md §3.3/§3.9):
     directory sync, data durable only up to the last f(data)sync) meta.json is the one this commit wrote and every
     file of every segment it references is present and completely synced.
 
-usage: mmap_trace_check.py <trace> <index dir>      exit 0 ok / 1 violation (prints VIOLATION-DETAIL lines)
+With --lock (C18 adjunct) only the writer-lock contract of MmapDirectory is checked: the lock is an flock() on
+`.tantivy-writer.lock` / `.tantivy-meta.lock`; flock exclusion is a property of the inode, so the path has to keep
+naming the same inode for as long as the directory is in use: the lock files are never unlinked or renamed (a
+release that unlinks the file lets a party that already opened it and a party that re-creates it both hold "the"
+lock). The outcomes of the writer-lock lifecycle that mmapcheck runs at its end (new writer after
+wait_merging_threads, second writer refused with a lock error, still refused after rollback, released by drop,
+released after a failed construction) are read from its marker.
+
+usage: mmap_trace_check.py [--lock] <trace> <index dir>      exit 0 ok / 1 violation (prints VIOLATION-DETAIL lines)
 """
 import json
 import re
@@ -56,7 +64,50 @@ def unescape(s):
     return bytes(s, "latin-1").decode("unicode_escape").encode("latin-1")
 
 
+LOCK_FILES = (".tantivy-writer.lock", ".tantivy-meta.lock")
+LIFECYCLE = ["a writer can be created after wait_merging_threads()", "a second writer on another Index handle is refused with a lock error",
+             "a second writer is still refused after rollback()", "a writer can be created after the previous one was dropped",
+             "a writer with an invalid memory budget is refused", "a writer can be created after a failed construction"]
+
+
+def lock_main(trace, root):
+    ev = parse(trace)
+    problems = []
+    stats = {"syscalls": len(ev), "flock_acquired": 0, "flock_refused": 0, "lock_file_opens": 0, "lifecycle_flags": ""}
+    lock_paths = [root + "/" + n for n in LOCK_FILES]
+    for (pid, name, args, ret) in ev:
+        if name in ("statx", "newfstatat", "stat") and "/TVMARK/api_end/lock/" in args:
+            flags = args.split("/TVMARK/api_end/lock/")[1].split('"')[0]
+            stats["lifecycle_flags"] = flags
+            for i, c in enumerate(flags):
+                if c != "1":
+                    problems.append("writer-lock lifecycle on MmapDirectory: NOT (%s)" % LIFECYCLE[i])
+        elif name == "flock" and any("<" + lp + ">" in args for lp in lock_paths):
+            if "LOCK_EX" in args:
+                if ret == 0:
+                    stats["flock_acquired"] += 1
+                else:
+                    stats["flock_refused"] += 1
+        elif name == "openat" and ret >= 0 and any(lp in args for lp in lock_paths):
+            stats["lock_file_opens"] += 1
+        elif name in ("unlink", "unlinkat", "rename", "renameat", "renameat2") and ret == 0:
+            for lp in lock_paths:
+                if lp in strings(args):
+                    problems.append("%s(%s): a lock file is removed or replaced while the directory is in use (flock "
+                                    "exclusion is tied to the inode)" % (name, lp[len(root) + 1:]))
+    if not stats["lifecycle_flags"]:
+        problems.append("no writer-lock lifecycle marker in the trace")
+    if stats["flock_acquired"] == 0:
+        problems.append("no successful exclusive flock() on a lock file: the lock model of the simulated directory does not describe MmapDirectory")
+    for p in problems[:10]:
+        print("VIOLATION-DETAIL property=C18 oracle=mmap_directory_lock_contract %s" % p)
+    print(json.dumps({"stats": stats, "problems": len(problems)}))
+    sys.exit(1 if problems else 0)
+
+
 def main():
+    if sys.argv[1] == "--lock":
+        lock_main(sys.argv[2], sys.argv[3].rstrip("/"))
     trace, root = sys.argv[1], sys.argv[2].rstrip("/")
     ev = parse(trace)
     problems = []
